@@ -23,8 +23,8 @@ from . import tables as T
 ID = 'C16'
 RULE = ('worlds of 2-3 tables over one content from tables.rand_spec (dims 1..4, five value kinds, metadata kinds, six id '
         'alphabets), each built by a different route {16 constructor input forms incl. caller CSR/CSC with stored zeros and '
-        'unsorted indices, stored zeros in sparse rows / coo / lil / dok / row dicts / dict, float32 / int16 inputs, sort_order then inverse, filter keeping everything (ids / predicate), subsample at full depth, '
-        'transpose twice, copy, column/row access, nnz, and (30%) a CSR/CSC matrix with stored zeros / unsorted indices put in place directly}; in half of the worlds one table differs in exactly one value (also by 1e-9..1e-12 or one ulp; 10% chains x,y,z with steps d,2d) / id / '
+        'unsorted indices, stored zeros in sparse rows / coo / lil / dok / row dicts / dict, float32 / int16 inputs, ids given as list / tuple / object array / str array / np.str_ list / pandas Index / Series, metadata categories of some entries in another insertion order, sort_order then inverse, filter keeping everything (ids / predicate), subsample at full depth, '
+        '(ids named through one-shot iterables too), transpose twice, copy, column/row access, nnz, and (30%) a CSR/CSC matrix with stored zeros / unsorted indices put in place directly}; in half of the worlds one table differs in exactly one value (also by 1e-9..1e-12 or one ulp; 10% chains x,y,z with steps d,2d) / id / '
         'order of two ids / metadata entry (changed value, category on one side only, category missing, entry {} on one side) / '
         'presence of metadata / type; programs of 3-10 steps over {nnz, row/column '
         'access, iter, t[i,j], plain reads, the writers as read-only accessors (to_tsv with / without header_key, header_value, '
@@ -47,7 +47,7 @@ CTOR_FORMS = ['dense', 'dense_int', 'lists', 'triples', 'dict', 'rowarrays', 'ro
               'csr', 'csc', 'coo', 'lil', 'dok', 'bsr', 'csr_zero', 'csr_unsorted', 'csc_zero_unsorted',
               'sparserows_zero', 'coo_zero', 'lil_zero', 'dok_zero', 'rowdicts_zero', 'dict_zero',
               'csr_f32', 'csc_f32', 'coo_i16', 'dense_f32', 'sparserows_f32']
-HISTORIES = ['sort_inverse', 'filter_ids', 'filter_pred', 'transpose2', 'copy', 'subsample_full',
+HISTORIES = ['sort_inverse', 'filter_ids', 'filter_once_gen', 'filter_once_iter', 'filter_once_map', 'filter_once_keys', 'filter_pred', 'transpose2', 'copy', 'subsample_full',
              'colaccess', 'rowaccess', 'nnz', 'eq_self']
 DESC = {'Tables appear equal': 0, 'Tables are not the same type': 1, 'Observation IDs are not the same': 2,
         'Sample IDs are not the same': 3, 'Observation metadata are not the same': 4,
@@ -153,15 +153,59 @@ def ctor_input(form, M):
     raise ValueError(form)
 
 
-def _mk(spec, form, oids=None, sids=None, M=None, omd=None, smd=None):
+IDFORMS = ['list', 'tuple', 'object_array', 'str_array', 'np_str_list', 'pd_index', 'pd_series']
+
+
+def ids_as(ids, idform):
+    """the same id texts in another container: equality must not depend on it"""
+    ids = list(ids)
+    if idform == 'tuple':
+        return tuple(ids)
+    if idform == 'object_array':
+        return np.array(ids, dtype=object)
+    if idform == 'str_array':
+        return np.array(ids)
+    if idform == 'np_str_list':
+        return [np.str_(i) for i in ids]
+    if idform in ('pd_index', 'pd_series'):
+        import pandas as pd
+        return pd.Index(ids) if idform == 'pd_index' else pd.Series(ids)
+    return ids
+
+
+def md_reorder(md, mdrev):
+    """the same metadata, the categories of some entries inserted in the opposite order"""
+    md = T._cp(md)
+    if md is None or not mdrev:
+        return md
+    return [dict(reversed(list(m.items()))) if m and i % 2 == mdrev % 2 else m for i, m in enumerate(md)]
+
+
+def _mk(spec, form, oids=None, sids=None, M=None, omd=None, smd=None, opts=None):
+    opts = opts or {}
     M = np.array(spec['mat'], dtype=float).reshape(len(spec['oids']), len(spec['sids'])) if M is None else M
     data, kw = ctor_input(form, M)
-    return Table(data, spec['oids'] if oids is None else oids, spec['sids'] if sids is None else sids,
-                 T._cp(spec['omd'] if omd is None else omd), T._cp(spec['smd'] if smd is None else smd),
+    idform = opts.get('idform', 'list')
+    return Table(data, ids_as(spec['oids'] if oids is None else oids, idform),
+                 ids_as(spec['sids'] if sids is None else sids, idform),
+                 md_reorder(spec['omd'] if omd is None else omd, opts.get('mdrev')),
+                 md_reorder(spec['smd'] if smd is None else smd, opts.get('mdrev')),
                  type=spec['type'], **kw)
 
 
-def build_route(spec, route):
+def one_shot(ids, how):
+    """every id, through an iterable that can be read once only"""
+    ids = list(ids)
+    if how == 'gen':
+        return (i for i in ids)
+    if how == 'iter':
+        return iter(ids)
+    if how == 'map':
+        return map(str, ids)
+    return iter(dict.fromkeys(ids))
+
+
+def build_route(spec, route, opts=None):
     """route = [constructor form, history step, ...]; the result has the spec's content"""
     form, steps = route[0], route[1:]
     M = np.array(spec['mat'], dtype=float).reshape(len(spec['oids']), len(spec['sids']))
@@ -172,15 +216,21 @@ def build_route(spec, route):
         sids = [spec['sids'][j] for j in ps]
         omd = None if spec['omd'] is None else [spec['omd'][i] for i in po]
         smd = None if spec['smd'] is None else [spec['smd'][j] for j in ps]
-        t = _mk(spec, form, oids, sids, M[po, :][:, ps], omd, smd)
+        t = _mk(spec, form, oids, sids, M[po, :][:, ps], omd, smd, opts)
         t = t.sort_order(spec['oids'], axis='observation').sort_order(spec['sids'], axis='sample')
         steps = steps[1:]
     else:
-        t = _mk(spec, form)
+        t = _mk(spec, form, opts=opts)
     for s in steps:
         if s == 'filter_ids':
             t = t.filter(list(t.ids(axis='observation')), axis='observation', inplace=False)
             t = t.filter(set(t.ids()), axis='sample', inplace=False)
+        elif isinstance(s, str) and s.startswith('filter_once_'):
+            # keep everything, the ids named through a one-shot iterable (read once by the library)
+            how = s[len('filter_once_'):]
+            t = t.filter(one_shot(t.ids(axis='observation'), how), axis='observation', inplace=False)
+            t.filter(one_shot(t.ids(), how), axis='sample', inplace=True)
+            t = t.filter(one_shot([], how), axis='sample', invert=True, inplace=False)
         elif s == 'filter_pred':
             t = t.filter(lambda v, i, m: True, axis='sample', inplace=False)
             t.filter(lambda v, i, m: False, axis='observation', invert=True, inplace=True)
@@ -253,7 +303,7 @@ def table_spec(c, k):
 
 
 def build_world(c):
-    return [build_route(table_spec(c, k), c['tables'][k]['route']) for k in range(len(c['tables']))]
+    return [build_route(table_spec(c, k), c['tables'][k]['route'], c['tables'][k].get('opts')) for k in range(len(c['tables']))]
 
 
 # ---------------------------------------------------------------- observing the real tables
@@ -489,7 +539,13 @@ def exports(t, with_hdf5=True):
     md = t.metadata(axis='observation')
     keys = sorted({str(x) for m in (md or ()) for x in m})
     tsv = [t.to_tsv()] + [t.to_tsv(header_key=k, header_value='md') for k in keys]
-    return {'tsv': tsv, 'json': j, 'hdf5': h5_dump(t) if with_hdf5 else None}
+    h5 = None
+    if with_hdf5:
+        try:
+            h5 = h5_dump(t)
+        except Exception as e:
+            h5 = ['refused', type(e).__name__, str(e)[:80]]
+    return {'tsv': tsv, 'json': j, 'hdf5': h5}
 
 
 # ---------------------------------------------------------------- the implementation run
@@ -763,6 +819,9 @@ def gen_case(rng):
     elif y < 0.55:
         k = rng.randrange(n)
         tabs[k] = {'route': rand_route(rng, spec, False), 'mut': rand_mut(rng, spec)}
+    for t in tabs:
+        # the ids in another container, the metadata categories of some entries in another insertion order
+        t['opts'] = {'idform': rng.choice(IDFORMS) if rng.random() < 0.5 else 'list', 'mdrev': rng.choice([0, 0, 1, 2])}
     h5ok = [hdf5_writable(mutate(spec, t['mut']) if t['mut'] else spec) for t in tabs]
     prog = rand_prog(rng, n, r, c, rng.randint(3, 10), h5ok)
     # every world ends with all comparisons in both directions
@@ -878,6 +937,10 @@ def classify(c):
         tags.append('form:' + t['route'][0])
         for s in t['route'][1:]:
             tags.append('history:' + (s[0] if isinstance(s, list) else s))
+        if t.get('opts'):
+            tags.append('ids:' + t['opts']['idform'])
+            if t['opts'].get('mdrev'):
+                tags.append('md-insertion-order:changed')
         if t.get('mut'):
             tags.append('diff:' + t['mut'][0])
             if t['mut'][0] in ('omd', 'smd') and len(t['mut']) > 2:
